@@ -291,7 +291,8 @@ pub fn random_module_elems(rng: &mut Rng, prefix: &str, max_elems: usize, with_c
     for i in 0..n {
         let k = kinds[rng.below(kinds.len())];
         // names in random (not sorted) order
-        let name = format!("{prefix}{}_{}", ["q", "b", "z", "a", "m", "Zz", "_x", "k1"][rng.below(8)], i);
+        // (also long names that share a long prefix: the order is decided far behind the first characters)
+        let name = format!("{prefix}{}_{}", ["q", "b", "z", "a", "m", "Zz", "_x", "k1", "EngineSpeedSensorSignal_Filtered", "EngineSpeedSensorSignal_Raw", "EngineSpeedSensorSignal"][rng.below(11)], i);
         v.push(GenElem { kind: k, name });
     }
     for single in [102, 103, 104, 105] {
